@@ -190,6 +190,198 @@ def overdrive_modules(outdir):
     return paths
 
 
+# --------------------------------------------------------------------------------------------------
+# Pan sources of process_pan(): IT files in instrument mode and an XM file, one source isolated per
+# file plus combinations.  Mono samples only, so the separation oracle applies (except *_sur).
+# --------------------------------------------------------------------------------------------------
+
+def _it_env(nodes=None, loop=None):
+    """82-byte IT envelope; nodes = [(value, tick)], loop = (begin, end) node indices"""
+    if not nodes:
+        return bytes(82)
+    flg = 1 | (2 if loop else 0)
+    e = bytearray([flg, len(nodes), loop[0] if loop else 0, loop[1] if loop else 0, 0, 0])
+    for (y, t) in nodes:
+        e += struct.pack("<bH", y, t)
+    return bytes(e).ljust(82, b"\0")
+
+
+def _it_instrument(smp, dfp=0x80 | 32, pps=0, ppc=60, rp=0, penv=None, penv_loop=None):
+    h = bytearray(b"IMPI" + b"ins".ljust(12, b"\0") + b"\0" + bytes([0, 0, 0]))
+    h += struct.pack("<HbB", 0, pps, ppc)
+    h += bytes([128, dfp, 0, rp]) + struct.pack("<HBB", 0x0214, 1, 0)
+    h += b"c14 pan".ljust(26, b"\0") + bytes([0, 0, 0, 0]) + struct.pack("<H", 0)
+    assert len(h) == 64
+    for n in range(120):
+        h += bytes([n, smp])
+    h += _it_env() + _it_env(penv, penv_loop) + _it_env()
+    return bytes(h).ljust(554, b"\0")
+
+
+def it_pan(variant, rng):
+    """IT module (instrument mode, stereo, linear slides) exercising the pan sources named by `variant`:
+    any of chan smp ins penv pps rp brello slide sur."""
+    v = set(variant.split("+"))
+    nchn = 6
+    cp = [32] * 64
+    if "chan" in v:
+        cp[:nchn] = [0, 16, 48, 64, 24, 40]
+    if "sur" in v:
+        cp[5] = 100
+    for i in range(nchn, 64):
+        cp[i] = 0xA0
+    # samples: looped 8-bit mono waveforms
+    waves = []
+    for k in range(3):
+        n = [32, 48, 64][k]
+        if k == 0:
+            d = bytes((int(100 * (1 - abs(2 * i / n - 1) * 2)) & 0xFF) for i in range(n))
+        else:
+            d = bytes(rng.randrange(0, 256) for _ in range(n))
+        sdfp = 32
+        if "smp" in v:
+            sdfp = 0x80 | [0, 64, 20][k]
+        waves.append((n, d, sdfp))
+    # instruments
+    insts = []
+    for k in range(4):
+        kw = dict(smp=1 + k % 3)
+        if "ins" in v:
+            kw["dfp"] = [0, 64, 12, 50][k]
+        if "pps" in v:
+            kw["pps"], kw["ppc"] = [16, -16, 32, -8][k], [60, 48, 72, 60][k]
+        if "rp" in v:
+            kw["rp"] = [64, 32, 16, 50][k]
+        if "penv" in v:
+            kw["penv"] = [[(-32, 0), (32, 8), (0, 20), (-20, 30)], [(32, 0), (-32, 5), (32, 10)], [(10, 0), (-10, 40)],
+                          [(0, 0), (32, 3), (-32, 9), (0, 12)]][k]
+            kw["penv_loop"] = [(0, 3), (0, 2), None, (1, 2)][k]
+        insts.append(_it_instrument(**kw))
+    # patterns
+    pats = []
+    for pno in range(2):
+        data = bytearray()
+        for r in range(64):
+            for c in range(nchn):
+                ev = {}
+                if r % 16 == 0 or rng.random() < 0.12:
+                    ev["note"] = rng.choice([36, 48, 55, 60, 64, 72, 84])
+                    ev["ins"] = 1 + (c + pno + r // 16) % 4
+                fx = None
+                if "brello" in v and c in (0, 1, 2) and (r % 8 == 1 or rng.random() < 0.3):
+                    fx = (19, 0x50 | rng.randrange(0, 4)) if r % 8 == 1 else (25, rng.choice([0x4F, 0x28, 0x81, 0xFF, 0x00, 0x1C]))
+                if "slide" in v and c in (3, 4) and fx is None and rng.random() < 0.5:
+                    fx = rng.choice([(16, 0x04), (16, 0x30), (16, 0xF2), (16, 0x2F), (24, rng.choice([0, 0x20, 0x80, 0xFF])),
+                                     (19, 0x80 | rng.randrange(0, 16))])
+                if "sur" in v and c == 4 and r % 32 == 2:
+                    fx = (19, 0x91)
+                if fx is not None:
+                    ev["fx"] = fx
+                if not ev:
+                    continue
+                mask = (1 if "note" in ev else 0) | (2 if "ins" in ev else 0) | (8 if "fx" in ev else 0)
+                data += bytes([(c + 1) | 0x80, mask])
+                if "note" in ev:
+                    data.append(ev["note"])
+                if "ins" in ev:
+                    data.append(ev["ins"])
+                if "fx" in ev:
+                    data += bytes(ev["fx"])
+            data.append(0)
+        pats.append(struct.pack("<HHI", len(data), 64, 0) + bytes(data))
+    orders = bytes([0, 1, 0, 1, 255])
+    nins, nsmp, npat = len(insts), len(waves), len(pats)
+    hdr = bytearray(b"IMPM" + ("c14 pan " + variant).encode()[:26].ljust(26, b"\0") + b"\x04\x10")
+    hdr += struct.pack("<HHHH", len(orders), nins, nsmp, npat)
+    hdr += struct.pack("<HHHH", 0x0214, 0x0214, 0x0D, 0)
+    hdr += bytes([128, 48, 4, 125, 128, 0]) + struct.pack("<HII", 0, 0, 0)
+    hdr += bytes(cp) + bytes([64] * 64)
+    assert len(hdr) == 192
+    off = 192 + len(orders) + 4 * (nins + nsmp + npat)
+    ioff = [off + 554 * i for i in range(nins)]
+    off += 554 * nins
+    soff = [off + 80 * i for i in range(nsmp)]
+    off += 80 * nsmp
+    poff = []
+    for pb in pats:
+        poff.append(off)
+        off += len(pb)
+    shdr = []
+    for (n, d, sdfp) in waves:
+        sh = bytearray(b"IMPS" + b"w.raw".ljust(12, b"\0") + b"\0" + bytes([64, 1 | 0x10, 64]))
+        sh += b"wave".ljust(26, b"\0") + bytes([1, sdfp])
+        sh += struct.pack("<IIII", n, 0, n, 8363 * 2) + struct.pack("<III", 0, 0, off) + bytes(4)
+        shdr.append(bytes(sh).ljust(80, b"\0"))
+        off += n
+    return (bytes(hdr) + orders + b"".join(struct.pack("<I", x) for x in ioff + soff + poff) + b"".join(insts)
+            + b"".join(shdr) + b"".join(pats) + b"".join(d for (_, d, _) in waves))
+
+
+def xm_pan(rng):
+    """XM module: pan envelope (looped), sample default pans, 8xx set pan, Pxy pan slide, E8x."""
+    nchn, nrows = 4, 64
+    rows = bytearray()
+    for r in range(nrows):
+        for c in range(nchn):
+            if r % 16 == 0 or rng.random() < 0.15:
+                note, ins = rng.choice([37, 49, 56, 61]), 1 + (c + r // 16) % 2
+            else:
+                note = ins = 0
+            fx = (0, 0)
+            if c >= 2 and rng.random() < 0.4:
+                fx = rng.choice([(0x08, rng.choice([0, 0x40, 0x80, 0xFF])), (0x19, 0x04), (0x19, 0x30), (0x0E, 0x80 | rng.randrange(16))])
+            if note == 0 and fx == (0, 0):
+                rows.append(0x80)
+            else:
+                rows += bytes([note, ins, 0, fx[0], fx[1]])
+    pat = struct.pack("<IBHH", 9, 0, nrows, len(rows)) + bytes(rows)
+    insts = b""
+    for k in range(2):
+        n = 64
+        raw = [int(90 * (1 - abs(2 * i / n - 1) * 2)) if k == 0 else rng.randrange(-100, 100) for i in range(n)]
+        delta, prev = bytearray(), 0
+        for x in raw:
+            delta.append((x - prev) & 0xFF)
+            prev = x
+        ih = bytearray(struct.pack("<I", 263) + ("pan%d" % k).encode().ljust(22, b"\0") + bytes([0]) + struct.pack("<H", 1))
+        ih += struct.pack("<I", 40) + bytes(96)
+        venv = struct.pack("<HH", 0, 64) + bytes(44)
+        pts = [(0, 0), (6, 64), (14, 32), (24, 10)] if k == 0 else [(0, 64), (4, 0), (9, 64)]
+        penv = b"".join(struct.pack("<HH", t, y) for (t, y) in pts).ljust(48, b"\0")
+        ih += venv + penv + bytes([1, len(pts), 0, 0, 0, 0, 0, len(pts) - 1])
+        ih += bytes([0, 1 | 4]) + bytes(4) + struct.pack("<H", 0) + bytes(2)
+        ih = bytes(ih).ljust(263, b"\0")
+        sh = struct.pack("<IIIBbBBbB", n, 0, n, 64, 0, 1, [0x10, 0xE0][k], 0, 0) + b"w".ljust(22, b"\0")
+        insts += ih + sh + bytes(delta)
+    hdr = b"Extended Module: " + b"c14 pan xm".ljust(20, b"\0") + b"\x1a" + b"c14synth".ljust(20, b"\0") + struct.pack("<H", 0x0104)
+    hdr += struct.pack("<IHHHHHHHH", 276, 2, 0, nchn, 1, 2, 1, 4, 125) + bytes([0, 0]).ljust(256, b"\0")
+    return hdr + pat + insts
+
+
+PAN_VARIANTS = ["chan", "smp", "ins", "penv", "pps", "rp", "brello", "slide", "chan+brello", "ins+penv+rp",
+                "chan+smp+ins+penv+pps+rp+brello+slide", "chan+brello+slide+sur"]
+
+
+def pan_modules(outdir, seed):
+    """IT/XM modules exercising every pan source of process_pan(), isolated and combined (deterministic in the seed)."""
+    os.makedirs(outdir, exist_ok=True)
+    paths = []
+    files = [("c14pan_%d_%s.it" % (seed, v.replace("+", "-") if len(v) < 30 else "all"), lambda r, v=v: it_pan(v, r)) for v in PAN_VARIANTS]
+    files.append(("c14pan_%d_xm.xm" % seed, xm_pan))
+    for k, (name, fn) in enumerate(files):
+        rng = random.Random(seed * 15485863 + k * 32452843)
+        p = os.path.join(outdir, name)
+        data = fn(rng)
+        try:
+            same = open(p, "rb").read() == data
+        except OSError:
+            same = False
+        if not same:
+            open(p, "wb").write(data)
+        paths.append(p)
+    return paths
+
+
 def generate(outdir, seed, count=3):
     """Write `count` S3M and `count` MOD files; returns their paths."""
     os.makedirs(outdir, exist_ok=True)
